@@ -51,3 +51,204 @@ def sem_programs(thorough):
                 continue
             out.append('|'.join([w] + posters))
     return out
+
+# ---------------- cv family ----------------
+CV_CORE = ['Ww', 'Wr', 'Wg', 'Wn', 'Wwd', 'Wnd', 'Wrd']
+CV_MORE = ['Cw', 'Cr', 'Wgd', 'Wwp', 'Cwd', 'Crd', 'Cnd']
+CV_NOTE = ['WwN', 'WrN', 'CwdN', 'Cwx', 'Cwe', 'Cwc', 'CgN', 'Crx', 'Cwde', 'Cwpx']
+CV_WAKERS = ['S', 'B', "S'", "B'"]
+
+def cv_pairs(waiters, wakers, extra=()):
+    out = []
+    ws = sorted(waiters)
+    for i, a in enumerate(ws):
+        for b in ws[i:]:
+            for k in wakers:
+                out.append('|'.join([a, b, '@2 ' + k] + list(extra)))
+    return out
+
+def cv_singles(waiters, wakers, await_=True):
+    out = []
+    for a in waiters:
+        for k in wakers:
+            out.append('%s|%s%s' % (a, '@1 ' if await_ else '', k))
+            if 'N' in a:
+                out.append('%s|%s%s|N' % (a, '@1 ' if await_ else '', k))
+    return out
+
+def cv_c04(tier):
+    """(program, P, E)"""
+    J = []
+    for p in cv_singles(CV_CORE + CV_MORE, CV_WAKERS): J.append((p, 4 if tier == 'quick' else 6, 1))
+    for p in cv_singles(CV_CORE, ['s S', 'S S']): J.append((p, 3, 1))
+    for p in cv_pairs(CV_CORE, CV_WAKERS): J.append((p, 2, 1))
+    for p in cv_pairs(['Ww', 'Wr', 'Wn'], ['s S', 'S S', "S' S'"]): J.append((p, 2, 0))
+    # three waiters, and four threads with a competing locker
+    for p in ['Ww|Ww|Ww|@3 S', 'Wr|Wr|Ww|@3 S', 'Wr|Wr|Wr|@3 S', 'Wn|Ww|Wr|@3 S', 'Ww|Wr|Wg|@3 B', 'Wr|Wn|Wwd|@3 B', 'Ww|Wn|@2 S|L', 'Wr|Wr|@2 S|L', 'Wwd|Wn|@2 S\'|R', 'Wnd|Wr|@2 S|L']:
+        J.append((p, 1 if tier == 'quick' else 2, 1 if 'd' in p else 0))
+    for p in ['WwN|Ww|@2 S|N', 'WrN|Wn|@2 S|N', 'WwN|WwN|@2 S|N', 'CwdN|Ww|@2 S\'|N']:
+        J.append((p, 1 if tier == 'quick' else 2, 1 if 'd' in p else 0))
+    if tier == 'thorough':
+        for p in cv_pairs(CV_CORE + ['Wgd', 'Cnd', 'Cwd'], CV_WAKERS): J.append((p, 3, 1))
+        for p in cv_pairs(CV_CORE, CV_WAKERS): J.append((p, 2, 2))
+    return J
+
+def cv_c05(tier):
+    J = []
+    timed = ['Cwd', 'Cwp', 'Crd', 'Crp', 'Cgd', 'Cnd', 'Cnp', 'Wwd', 'Wrd']
+    noted = ['CwN', 'CrN', 'CgN', 'Cwx', 'Crx', 'Cwe', 'Cre', 'Cwc', 'CwdN', 'Cwde', 'Cwdc', 'Cwpx', 'CrdN']
+    Pq = 3 if tier == 'quick' else 5
+    for a in timed + noted:
+        for k in ['S', "S'", 'L', 'R', 's']:
+            t = [a, k]
+            if 'N' in a: t.append('N')
+            J.append(('|'.join(t), Pq if len(t) == 2 else 2, 2 if tier == 'thorough' or len(t) == 2 else 1))
+    for a, b in [('Cwd', 'Crd'), ('Cwd', 'CwN'), ('Cwe', 'Cwc'), ('Crd', 'Crx'), ('Cwd', 'Cwd'), ('CrN', 'CrN'), ('Cwde', 'Ww')]:
+        for k in ['@2 S', 'L', '@1 s']:
+            t = [a, b, k]
+            if 'N' in a + b: t.append('N')
+            J.append(('|'.join(t), 2 if len(t) == 3 else 1, 1 if tier == 'quick' else 2))
+    return J
+
+# ---------------- muwait family ----------------
+MW_CORE = ['Mw1', 'Mr1', 'Mw2', 'Mw3', 'Mw4', 'Mw5', 'Mr2', 'Mr3']
+
+def mw_c06(tier):
+    J = []
+    Pq = 3 if tier == 'quick' else 5
+    for a in MW_CORE + ['Mw1z', 'Mr1z']:
+        for k in ['@1 A', '@1 B A', '@1 Z A', '@1 z A', '@1 R A', 'A']:
+            if ('2' in a) and 'B' not in k: k = k.replace('A', 'B')
+            J.append(('%s|%s' % (a, k), Pq, 0))
+    ws = sorted(MW_CORE)
+    for i, a in enumerate(ws):
+        for b in ws[i:]:
+            for k in ['@2 A B', '@2 B A', '@2 Z A B', '@2 A z B']:
+                J.append(('|'.join([a, b, k]), 2, 0))
+    # designated-waker / all-false paths: a woken waiter whose own section ends without wake-up
+    for p in ['Mw1|Mw2z|@2 B|@2 A', 'Mr1|Mw2z|@2 B|@2 A', 'Mw1|Mr2|@2 A|@2 B', 'Mw1|Mw3|Mw4|@3 A', 'Mr1|Mr3|Mw2|@3 B A', 'Mw1|Mw2|Mw1|@3 A B',
+              'Mw1|V|@2 S A', 'Mr1|V|@2 A|@2 S', 'Mw2|Mw1|@2 z|@2 A B', 'Mw1|Mw1|@2 R|@2 A', 'Mr1|Mr1|@2 R|@2 A', 'Mw1|Mw5|@2 Z|@2 A']:
+        J.append((p, 1 if tier == 'quick' else 2, 0))
+    # removal from the middle of the queue by timeout / cancellation, then the wake-up
+    for p in ['Mw1|Mw1d|Mw1|@3 A', 'Mw1|Mw3d|Mw1|@3 A', 'Mw2|Mw1d|Mw1|@3 A B', 'Mr1|Mr1d|Mw1|@3 A', 'Mw1|Mw2d|Mw1|@3 A']:
+        J.append((p, 1 if tier == 'quick' else 2, 1))
+    for p in ['Mw1|Mw1N|@2 N A', 'Mw1|Mw3N|@2 N A', 'Mw2|Mw1N|Mw1|@3 N A B']:
+        J.append((p, 2 if tier == 'quick' or p.count('|') > 2 else 3, 0))
+    for p in ['Mw1|Mw1d|@2 A', 'Mw1|Mw3d|@2 A', 'Mr1|Mw1d|@2 A', 'Mw2|Mw1d|@2 B A', 'Mw1d|Mw1d|@2 A', 'Mw1|Mw2d|@2 A']:
+        J.append((p, 2, 1 if tier == 'quick' else 2))
+    if tier == 'thorough':
+        for i, a in enumerate(ws):
+            for b in ws[i:]:
+                J.append(('|'.join([a, b, '@2 A', '@2 B']), 2, 0))
+                J.append(('|'.join([a, b, '@2 A B']), 3, 0))
+    return J
+
+def mw_c05(tier):
+    J = []
+    Pq = 3 if tier == 'quick' else 5
+    for a in ['Mw1d', 'Mr1d', 'Mw1p', 'Mr1p', 'Mw1N', 'Mr1N', 'Mw1x', 'Mr1x', 'Mw1dN', 'Mw1px', 'Mw3d']:
+        for k in ['A', 'Z', 'R', '@1 A', '@1 Z', 'B']:
+            t = [a, k]
+            if 'N' in a: t.append('N')
+            J.append(('|'.join(t), Pq if len(t) == 2 else 2, 2 if len(t) == 2 or tier == 'thorough' else 1))
+    for p in ['Mw1d|Mw1d|@2 A', 'Mw1d|Mr1d|Z', 'Mw1d|Mw2|@2 B', 'Mr1d|Mr1d|R', 'Mw1N|Mw1d|@2 N|Z']:
+        J.append((p, 2 if p.count('|') == 2 else 1, 1 if tier == 'quick' else 2))
+    return J
+
+# ---------------- once ----------------
+def once_programs(tier):
+    J = []
+    kinds = ['O', 'Oa', 'Os', 'Oas']
+    import itertools
+    for a, b in itertools.combinations_with_replacement(kinds, 2):
+        J.append(('%s|%s' % (a, b), 4 if tier == 'quick' else 6, 1))
+        J.append(('%s %s|%s' % (a, a, b), 3 if tier == 'quick' else 4, 1))
+    for a, b, c in itertools.combinations_with_replacement(kinds, 3):
+        J.append(('%s|%s|%s' % (a, b, c), 2, 1 if tier == 'quick' else 2))
+    for p in ['O|O2', 'O|Os2', 'O O2|O2 O', 'O|O|O2', 'O|Os|O2', 'Oa|Oa2|Os2', 'O|O|O|O', 'O|Os|Oa|Oas', 'O|O2|O|O2']:
+        J.append((p, 2 if p.count('|') < 3 else 1, 1))
+    if tier == 'thorough':
+        for a, b, c in itertools.combinations_with_replacement(kinds, 3):
+            J.append(('%s|%s|%s' % (a, b, c), 3, 1))
+    return J
+
+# ---------------- counter ----------------
+def counter_programs(tier):
+    J = []
+    two = ['1:-|w', '1:-|wd', '1:-|wp', '1:-|n', '1:-|v', '1:- v|w', '2:- -|w', '2:-|- w', '1:+ - -|w', '1:+ -|- v', '2:- v|- v', '1:- w|w', '1:-|v w', '1:- wd|v', '2:-|wd v', '1:+|wp']
+    for p in two: J.append((p, 4 if tier == 'quick' else 8, 1))
+    three = ['2:-|-|w', '2:-|-|wd', '2:-|-|n', '1:-|w|w', '1:-|w|wd', '1:-|n|w', '1:-|w|v', '2:-|- v|w', '1:+ -|-|w', '2:- w|-|v', '1:-|wd|wp', '2:-|-|v v', '1:+ -|- w|v', '3:-|-|- w']
+    for p in three: J.append((p, 2 if tier == 'quick' else 3, 1))
+    four = ['2:-|-|w|w', '2:-|-|w|n', '2:-|-|wd|v', '1:-|w|w|w', '3:-|-|-|w']
+    for p in four: J.append((p, 1 if tier == 'quick' else 2, 1 if 'd' in p else 0))
+    return J
+
+# ---------------- note ----------------
+def note_trees():
+    """all headers: tree shapes up to depth 3 / <= 4 notes, deadlines from {-,p,1,2}"""
+    out = []
+    D = '-p12'
+    for r in D:
+        out.append(r + 'xxx')
+        for c in D:
+            out.append(r + c + 'xx')
+            for s in D:
+                out.append(r + c + 'x' + s)
+            for g in D:
+                out.append(r + c + g + 'x')
+                for s in D:
+                    out.append(r + c + g + s)
+    return out
+
+def note_c08(tier):
+    J = []
+    # sequential part: every tree and deadline assignment; expiry, initial state, one notify, final states (observer)
+    for h in note_trees():
+        live = [l for l, ch in zip('RCGS', h) if ch != 'x' and not (l == 'G' and h[1] == 'x')]
+        ops = ' '.join('e%s i%s' % (l, l) for l in live)
+        J.append(('%s:%s' % (h, ops), 0, 1))
+        if tier == 'thorough' or h.count('p') == 0:
+            for l in live:
+                J.append(('%s:n%s %s' % (h, l, ' '.join('i' + x for x in live)), 0, 0))
+    conc = ['----:nR|iG|wG', '----:nC|iG iR|wG', '----:nC|wG|wS', '--1-:wG|iG|iC', '-1--:wG|weG|iR', '----:nR|nR|iC', '----:nR|nC|wG', '----:nC|nG|iG iG',
+            '----:nR|kC|iG', '----:nG|kC|wG', '-2-1:wS|wdR|iS', '----:nR|wC|wG|wS', '--2-:nC|wG|wdG', '1---:wG|wS|iR', '----:iG iG|nR|iG']
+    for p in conc:
+        J.append((p, (2 if p.count('|') < 3 else 1) if tier == 'quick' else (3 if p.count('|') < 3 else 2), 1 if any(c in p.split(':')[0] for c in '12') or 'wd' in p or 'we' in p else 0))
+    return J
+
+def note_c09(tier):
+    J = []
+    progs = ['--xx:nC|nC|iR fR', '--xx:nC|nC|fR', '----:nG|nG|fC', '----:nR|fC', '----:nR|fC|iG', '----:nC|fC', '----:fC|nG', '----:fC|fS|nR', '----:fC|kR|nG',
+             '----:fG|nC|iR', '----:fC|iG|nR', '----:nG|nC|fR', '----:fC|wG|nR', '--1-:fC|wG', '-1--:fC|wG|iR', '----:kC|kC|nR', '----:kG|nC|fS', '----:fC fG|nR', '----:fG fC|nR|iS',
+             '----:nG|nG|nC', '----:nC|nR|fG', '----:fS|fC|fG', '----:nG|fC|fS|nR', '----:nC|nC|fR|iG', '----:kC|fG|nR|iS']
+    for p in progs:
+        n = p.count('|') + 1
+        if tier == 'quick': P = 3 if n == 2 else 2 if n == 3 else 1
+        else: P = 6 if n == 2 else 3 if n == 3 else 2
+        J.append((p, P, 1 if any(c in p.split(':')[0] for c in '12') else 0))
+    return J
+
+# ---------------- waitn ----------------
+def waitn_c11(tier):
+    J = []
+    two = ['Wa|na', 'Wad|na', 'Wap|na', 'Wc|dc', 'Wcd|dc', 'Wab|nb', 'Wacd|dc', 'Wabeck|dk', 'Wabeckd|ne', 'Wvd|@1 S', "Wvd|@1 S'", 'Wv|@1 B', 'Wav|@1 S', 'Wvad|na', 'Wckp|dk']
+    for p in two: J.append((p, 3 if tier == 'quick' else 5, 1 if p.split('|')[0][-1] in 'dp' else 0))
+    three = ['Wab|na|nb', 'Wacd|na|dc', 'Wabeckd|nb|dk', 'Wa|Wa|na', 'Wad|Wab|na', 'Wav|@1 na|@1 S', "Wvd|Vw|@2 S", 'Wvd|Wvd|@2 S', 'Wv|Wv|@2 B', 'Wvc|@1 dc|@1 S\'', 'Wck|dc|dk', 'Wabeck|Wkceba|nb', 'Wad|na|Wa', 'Wvbd|Vw|@2 S']
+    for p in three: J.append((p, 2, 1 if 'd' in p.replace('dc', '').replace('dk', '') else 0))
+    four = ['Wab|Wba|na|nb', 'Wv|Vw|@2 S|@2 S', 'Wacd|Wck|dc|dk', 'Wavd|Vw|@2 S|na']
+    for p in four: J.append((p, 1 if tier == 'quick' else 2, 1 if 'd' in p.replace('dc', '').replace('dk', '') else 0))
+    if tier == 'thorough':
+        for p in three: J.append((p, 3, 1 if 'd' in p.replace('dc', '').replace('dk', '') else 0))
+    return J
+
+# ---------------- refcnt ----------------
+def refcnt_programs(tier):
+    J = []
+    ends = ['D', 'Du']
+    pre = ['', 'L ', 'R ', 'T ']
+    import itertools
+    th = [p + e for p in pre for e in ends]
+    for a, b in itertools.combinations_with_replacement(th, 2): J.append(('%s|%s' % (a, b), 99 if tier == 'thorough' else 5, 0))
+    for c in itertools.combinations_with_replacement(th, 3): J.append(('|'.join(c), 2 if tier == 'quick' else 3, 0))
+    for p in ['L D|L D|D|D', 'R D|R D|L D|D', 'D|D|D|Du', 'L D|T D|R Du|D']: J.append((p, 1 if tier == 'quick' else 2, 0))
+    return J
